@@ -2370,17 +2370,6 @@ template <typename T>
   }
 
   template <typename Sig>
-  void
-  report_match(
-    call_matcher_list <Sig> &matcher_list)
-  {
-    if(! matcher_list.empty())
-    {
-        send_ok_report<specialized>((matcher_list.begin())->name);
-    }
-  }
-
-  template <typename Sig>
   class return_handler
   {
   public:
@@ -3090,6 +3079,7 @@ template <typename T>
           saturated_list.push_back(this);
         }
       }
+      send_ok_report<specialized>(name);
       for (auto& a : actions) a.action(params);
     }
 
@@ -3387,9 +3377,6 @@ template <typename T>
                       e.saturated,
                       func_name + std::string(" with signature ") + sig_name,
                       param_value);
-    }
-    else{
-        report_match(e.active);
     }
     trace_agent ta{i->loc, i->name, tracer_obj()};
     try
